@@ -981,12 +981,18 @@ end Coba.C15
 
 namespace Coba.C15
 
-/-- the rows of one batch give kwargs with the same keys (as `kwargs[0]` decides the keys for the whole batch) -/
+/-- the rows of one batch give kwargs with the same key SET (in any order: `kwargs[0]` decides which keys the batch has,
+every row is looked up by key) and every dict is well-formed (one value per key) -/
 def sameKeys (rows : List (Answer × List PyVal)) : Bool :=
   match rows with
   | [] => true
   | (a0, _) :: _ =>
-    rows.all (fun r => r.1.kwKeys == a0.kwKeys && r.1.kwVals.length == r.1.kwKeys.length)
+    rows.all (fun r => r.1.kwVals.length == r.1.kwKeys.length &&
+      a0.kwKeys.all (fun k => r.1.kwKeys.contains k) && r.1.kwKeys.all (fun k => a0.kwKeys.contains k))
+
+/-- two key/value lists are the same finite map -/
+def kwEquiv (ks : List String) (vs : List PyVal) (ks' : List String) (vs' : List PyVal) : Prop :=
+  ∀ k, lookupKey k ks vs = lookupKey k ks' vs'
 
 end Coba.C15
 
